@@ -5,6 +5,8 @@ TECHNIQUE = 'bounded model checking of the compiled code (Kani/CBMC, SAT): Ancho
 FUNCTIONS = []
 BOUNDS = ['keys, signer flags and relevant account fields fully symbolic; account data sizes fixed to the real LEN of each account type']
 ASSUMPTIONS = [
+    'init structs: Rent::get returns Rent::default(); System-program create_account/transfer/allocate/assign are nondeterministic Ok/Err stubs (signature checks not modelled); find_program_address is an ideal-hash memo (<= 6 seeds of <= 32 bytes, <= 4 derivations)',
+    'reward_index < 3 in the emissions / collect_reward harnesses (index >= 3 panics on array indexing: the transaction aborts); not-yet-migrated pool for migrate_repurpose_reward_authority_space; Token-2022 mints / vaults without extensions (82 / 165 bytes)',
     'error conversions replaced by code-preserving stubs; message formatting stubbed',
     'sysvar syscalls (Clock/Rent) stubbed: prefix harnesses stop at the first sysvar call',
     'PDA derivation (sha256 + curve check) is not executed symbolically: structs with seeds= are checked up to the PDA comparison with an ideal-hash stub or excluded (listed in OUTSIDE)',
@@ -31,15 +33,15 @@ COVERAGE = {
     'set_fee_rate_by_delegated_fee_authority': ['c04_set_fee_rate_by_delegated_fee_authority'], 'set_adaptive_fee_constants': ['c04_set_adaptive_fee_constants'],
     'initialize_pool_with_adaptive_fee': ['c04_initialize_pool_authority_rule'],
     'migrate_repurpose_reward_authority_space': ['c04_migrate_repurpose_reward_authority_space'],
-    'collect_fees': ['c15_collect_fees'], 'collect_fees_v2': ['c15_collect_fees_v2'], 'collect_reward': ['c15_collect_reward'], 'collect_reward_v2': ['c15_collect_reward_v2'],
-    'collect_protocol_fees': ['c15_collect_protocol_fees'], 'collect_protocol_fees_v2': ['c15_collect_protocol_fees_v2'],
+    'collect_fees': ['c15_collect_fees_accounts', 'M:handler:collect_fees'], 'collect_fees_v2': ['c15_collect_fees_v2'], 'collect_reward': ['c15_collect_reward_accounts', 'M:handler:collect_reward'], 'collect_reward_v2': ['c15_collect_reward_v2_accounts', 'M:handler:collect_reward_v2'],
+    'collect_protocol_fees': ['c15_collect_protocol_fees_accounts'], 'collect_protocol_fees_v2': ['c15_collect_protocol_fees_v2'],
     'close_position': ['c15_close_position'], 'close_position_with_token_extensions': ['c15_close_position_with_token_extensions'],
-    'open_bundled_position': ['c15_open_bundled_position'], 'close_bundled_position': ['c15_close_bundled_position'], 'delete_position_bundle': ['c15_delete_position_bundle'],
-    'lock_position': ['c15_lock_position'], 'reset_position_range': ['c15_reset_position_range'], 'transfer_locked_position': ['c15_transfer_locked_position'],
+    'open_bundled_position': ['c15_open_bundled_position_handler'], 'close_bundled_position': ['c15_close_bundled_position'], 'delete_position_bundle': ['c15_delete_position_bundle'],
+    'lock_position': 'GAP: the LockPosition accounts struct (init + System CPIs) runs out of memory under CBMC; its handler-level clauses are in C18', 'reset_position_range': ['c15_reset_position_range'], 'transfer_locked_position': ['c15_transfer_locked_position_accounts'],
     'increase_liquidity': ['c04p_increase_liquidity_prefix'], 'decrease_liquidity': ['c04p_decrease_liquidity_prefix'],
     'increase_liquidity_v2': ['c04p_increase_liquidity_v2_prefix'], 'decrease_liquidity_v2': ['c04p_decrease_liquidity_v2_prefix'],
     'increase_liquidity_by_token_amounts_v2': ['c04p_increase_liquidity_by_token_amounts_v2_prefix'], 'reposition_liquidity_v2': ['c04p_reposition_liquidity_v2_prefix'],
-    'swap': ['c15_swap_accounts'], 'swap_v2': ['c15_swap_v2_accounts'], 'two_hop_swap': ['c15_two_hop_swap'], 'two_hop_swap_v2': ['c15_two_hop_swap_v2'],
+    'swap': ['c15_swap_accounts'], 'swap_v2': ['c15_swap_v2_accounts'], 'two_hop_swap': ['M:handler:two_hop'], 'two_hop_swap_v2': ['M:handler:two_hop_v2'],
     'update_fees_and_rewards': ['c15_update_fees_and_rewards_accounts'],
     'initialize_pool': None, 'initialize_pool_v2': None, 'initialize_tick_array': None, 'initialize_dynamic_tick_array': None,
     'open_position': None, 'open_position_with_metadata': None, 'open_position_with_token_extensions': None,
@@ -65,6 +67,7 @@ def coverage_check(ctx, files):
         if m is None: continue
         if isinstance(m, str): gaps.append(f'{n}: {m}'); continue
         for h in m:
+            if h.startswith('M:'): continue        # decided by an Engine-M handler-mode task (props/mextra.py), not by a Kani harness
             if h not in have: missing.append(f'{n} -> harness {h} not found')
     ctx.extra['instruction_coverage'] = {'instructions': len(set(names) | set(pino)), 'pinocchio': sorted(set(pino)), 'known_gaps': gaps, 'unprivileged': sorted(k for k, v in COVERAGE.items() if v is None)}
     if missing:
@@ -76,4 +79,9 @@ def coverage_check(ctx, files):
 def run(ctx):
     files = ['c04.rs', 'c04p.rs', 'c15.rs']
     if ctx.only is None: coverage_check(ctx, files)
+    # Engine M (handler mode): the payout handlers verify the position authority before any transfer; Pinocchio handlers verify it before touching state
+    from props import hm, pino
+    ctx.mir()
+    ctx.parallel([('collect_fees', hm.collect_fees_task(False)), ('collect_fees_v2', hm.collect_fees_task(True)),
+                  ('collect_reward', hm.collect_reward_task(False, 0)), ('collect_reward_v2', hm.collect_reward_task(True, 0))] + pino.tasks(), max_procs=8)
     ctx.run_kani(files)
